@@ -34,15 +34,15 @@ claim("C06",
       TB + "fixedint UInt16/UInt12 wrap-around modelled.",
       "DESIGN.md §8 C06")
 claim("C07",
-      "Lean 4 theorems on the pipeline model (in progress: skeleton simulation) + cycle-accurate correspondence; independent documented-schedule reference as oracle",
-      "Currently the schedule clauses are tied by the cycle-accurate correspondence of Model.Pipe with the real pipeline (latch occupancy after every cycle) and by the implementation-level oracle, an independent reference of the documented schedule (harness/pipe_ref.py) compared on retire cycle per instruction, total cycles, the n+4 clause and the per-step cycle increment with miss penalties. Theorems in Props/C07.lean are listed in DESIGN.md §13.",
-      TB + "PARTIAL: the skeleton-simulation theorem is not complete (DESIGN.md §13).",
-      "DESIGN.md §8 C07, §13")
+      'Lean 4 theorems on the pipeline model: per-step cycle increment with miss penalties, n+4 for straight-line independent programs, closed forms for interlock / redirect / ecall drain, lock-step simulation of a data-free skeleton; cycle-accurate correspondence; independent documented-schedule reference as oracle',
+      '23 theorems (Props/C07.lean): cycle_increment (+ EX/MEM fault variants, no-cache = exactly +1, single_cycle_increment, uncounted re-read free), straight_line_n_plus_4 (done at n+4 and at no smaller k) and straight_line_empty, interlock_condition/recorded/two_bubbles, redirect_three_slots/targets, ecall_drain (under the reachable-shape hypothesis; ecall_drain_needs_exmem shows it is necessary), pipe_sim_skeleton / pipe_run_skeleton (erase (step p) = Skeleton.step (erase p) outcomes, Spec/Skeleton.lean), is_done_skeleton. Retire cycle per instruction on the real code is compared with an independent reference of the documented schedule (harness/pipe_ref.py).',
+      TB + "The skeleton is data-free: branch outcomes and exit decisions are inputs. The closed forms are stated on explicit pipeline configurations; 'retire cycle of every instruction of every program = skeleton' follows from pipe_run_skeleton for the model, and from the correspondence for the code.",
+      'DESIGN.md §8 C07')
 claim("C08",
-      "Lean 4 theorems on the pipeline model with the interlock flag off (no ID stall ever) + correspondence with hazard detection disabled; independent interlock-free pipeline reference and nop-padding oracle",
-      "Proved: with the flag off the ID stage never raises a stall (Props/C08.lean). The stale-read semantics and the hazard-free clause are tied by the cycle-accurate correspondence with the flag off and searched with an independent interlock-free reference (harness/pipe_ref.py) and with nop-padded programs against single-cycle mode.",
-      TB + "PARTIAL: hazard_free_refines / pad_hazard_free depend on the C02 control proof (DESIGN.md §13).",
-      "DESIGN.md §8 C08, §13")
+      'Lean 4 theorems on the pipeline model with the interlock flag off: no ID stall ever, stalls counter counts ecall drains only, ID reads after WB with no forwarding (stale reads), nop-padding yields hazard-free programs, skeleton without interlock; correspondence with hazard detection disabled; independent interlock-free reference + nop-padding oracle',
+      "16 theorems (Props/C08.lean): no_id_stall_init / no_id_stall / no_id_stall_run, hazard_flag_constant, stalls_count_ex_only, ex_stall_is_ecall_drain, regs_written_by_wb_only, id_reads_after_wb, id_operands_stale, id_output_latched, stale_read_harmless, pad_hazard_free (every program), pad_layout, hazard_free_no_interlock, skeleton_interlock_off. The run-level clause 'a hazard-free program computes single-cycle results with detection off' (hazard_free_refines) re-instantiates the C02 control proof and is being added (DESIGN.md §13); until then it is tied by correspondence and the nop-padding oracle.",
+      TB + "PARTIAL for hazard_free_refines only (DESIGN.md §13).",
+      'DESIGN.md §8 C08, §13')
 claim("C09",
       "Lean 4 proof: erasing data from the cache model commutes with every accepted operation of a tag-only reference cache (policy-generic), counters and penalties follow by induction; correspondence with the real policies",
       "23 theorems (Props/C09.lean): erase_commutes_read/write/op, counters_refine for all histories and prefixes, penalty per counted miss, uncounted reads and direct writes leave counters untouched, reread_neutral (display re-read is a no-op), instances for LRU/PLRU, display_reread_harmless at instruction level; plus the proved necessity of policy idempotence for writes. Program-level equality of the counters in both modes is tied by correspondence and oracle (and follows from C02 once its control half is proved).",
